@@ -321,7 +321,10 @@ PROPS = {
                 "set / valued exactly when the parser sees it set (empty counts as set); (B) an invalid value "
                 "in the variable of an item absent from the line must fail with the conversion "
                 "message; (C) a plain required item with item and variable absent must fail "
-                "naming the item or the variable. Every 8th case is repeated in a child process "
+                "naming the item or the variable; (D) every 8th case is a group under "
+                "optional/many/some/collect/last given only in part whose other required member "
+                "(named or variable-only) is absent together with its variable: the run fails "
+                "naming that member or variable, and succeeds once the variable is set. Every 8th case is repeated in a child process "
                 "whose environment comes from the OS. " + DISTINCT,
         "assumptions": COMMON_ASSUMPTIONS + [
             "Shard processes are single-threaded, so set_var/remove_var between cases is safe.",
@@ -329,7 +332,9 @@ PROPS = {
         "must_observe": ["class:line+environment", "help-variable-states-checked",
                          "line_and_variable(precedence)",
                          "variable_only(fallback)", "class:invalid-variable-value",
-                         "class:item-and-variable-absent", "child-processes"],
+                         "class:item-and-variable-absent", "child-processes",
+                         "class:half-given-group:optional:variable-only",
+                         "class:half-given-group:variable-set"],
         "needs_hooks": True,
         "technique": "runtime monitoring: derivation-directed oracle over (line, environment) "
                      "pairs + metamorphic oracle for undeclared variables + child processes with "
